@@ -26,7 +26,10 @@ RULE = (
     "whose cell values encode (variable, row, column), float64/float32/int64 data with optional NaN holes, default or custom dims, "
     "1-D axis vectors or 2-D meshgrids (C/F order, read-only), Dataset / named / unnamed DataArray inputs with coordinates declared in either "
     "order; plus clear non-meshgrids (deviation >= 10 % of the node spacing, transposed or ij-indexed arrays), wrong name counts, and nested uses "
-    "through BaseGridder.grid and project_grid; name collisions (a DataArray pulled out of a grid by the name of one of its 1..3 extra coordinates, "
+    "through BaseGridder.grid and project_grid; grids whose variables / extra coordinates are dask arrays with >= 2 chunks along the second "
+    "dimension (even, uneven, both dimensions, only some members chunked); non-meshgrids of projected size that drift gradually (sheared / "
+    "rotated so that neighbouring rows agree within numpy.allclose's tolerance while first and last differ by 12..40 times it; drifts of 0.5 and "
+    "2 times the tolerance are counted either-way); name collisions (a DataArray pulled out of a grid by the name of one of its 1..3 extra coordinates, "
     "variables / extra coordinates called easting or northing in grids with other dims); data and extra coordinates as numpy.ma.MaskedArray (some / no cells masked, -99999 stored under "
     "the mask: masked cells must come out as NaN in grid and table) and as lists of lists; large grids of >= 2**18 cells (450x600, 512x512, "
     "300x1000, ...) through make_xarray_grid -> grid_to_table for Dataset and DataArray inputs with every row compared; make_xarray_grid called with dims / extra_coords_names by keyword, POSITIONALLY (4th / 5th "
@@ -41,9 +44,10 @@ RULE = (
 )
 ASSUMPTIONS = [
     "cell values, coordinates and extra coordinates must be copied, so they are compared exactly (NaN position-wise)",
-    "a 2-D input is a *clear* non-meshgrid when it deviates from its first row/column by >= 10 % of the smallest node spacing, with "
-    "|coordinates| <= 1e3 spacings and spacing >= 1e-6 (the verdict then does not depend on numpy.allclose's tolerances); inputs that deviate "
-    "less are either-way (counted, not failed) and the returned axis value may be any of the column's values",
+    "a 2-D input is a *clear* non-meshgrid when it deviates from its first row/column by >= 10 % of the smallest node spacing and by "
+    ">= 10 x (1e-8 + 1e-5 |coordinate|), ten times numpy.allclose's default tolerance (the verdict then does not depend on the tolerance "
+    "convention; this includes arrays that drift gradually, every row within tolerance of its neighbour); inputs that deviate less are "
+    "either-way (counted, not failed) and the returned axis value may be any of the column's values",
     "grid_to_table is judged on grids whose variables and extra coordinates all use the dimension order of the first variable "
     "(mixed dimension orders are outside the quantifier; they are probed and counted under observed:*, see JUDGE_MIXED_DIM_ORDER)",
     "column order of the returned DataFrame is not part of the statement (names and values are)",
@@ -61,6 +65,10 @@ _QUICK_FLOORS = {
     "eval:make_grid_as_intended": 1000, "class:make_call_positional_dims_custom_dims": 80,
     "class:make_call_positional_dims_and_extra_coords_names_custom_dims": 150, "class:make_call_positional_with_extra_coordinates": 200,
     "class:make_call_positional_without_extra_coordinates": 150, "class:make_call_all_keywords": 140,
+    # lazily evaluated grids, gradually drifting non-meshgrids
+    "class:table_dask_arrays": 200, "class:table_dask_two_or_more_chunks_along_second_dimension": 170,
+    "class:table_dask_and_in_memory_members_mixed": 25, "class:check_meshgrid_drifting_non_meshgrid": 60,
+    "refused:drifting_non_meshgrid_clear": 60,
     # name collisions
     "class:table_dataarray_named_after_its_own_coordinate": 200, "class:table_own_coordinate_with_1_other_extra_coordinates": 50,
     "class:table_own_coordinate_with_2_other_extra_coordinates": 50, "class:table_variable_or_extra_named_easting_with_other_dims": 40,
@@ -166,8 +174,18 @@ def mesh_class(coordinates):
     info.update(spacing=spacing, magnitude=mag)
     if spacing:
         info["deviation_over_spacing"] = max(dev_e, dev_n) / spacing
-    if spacing is not None and spacing >= 1e-6 and mag <= 1e3 * spacing and max(dev_e, dev_n) >= 0.1 * spacing:
-        return "clear", info
+    if spacing is not None:
+        # clearly not a meshgrid: off its first row / column by >= 10 % of the node spacing AND by >= 10 times the loosest reading of
+        # "equal" in use for coordinates of that magnitude (1e-8 + 1e-5 |coordinate|, numpy.allclose's defaults), per array
+        loose_e = 10 * (1e-8 + 1e-5 * float(np.max(np.abs(east))))
+        loose_n = 10 * (1e-8 + 1e-5 * float(np.max(np.abs(north))))
+        info.update(deviation_over_loose_tolerance=max(dev_e / loose_e, dev_n / loose_n) * 10)
+        if (dev_e >= 0.1 * spacing and dev_e >= loose_e) or (dev_n >= 0.1 * spacing and dev_n >= loose_n):
+            # drifting: every row / column within the loose tolerance of its NEIGHBOUR although far from the first one
+            step_e = float(np.max(np.abs(np.diff(east, axis=0)))) if east.shape[0] > 1 else 0.0
+            step_n = float(np.max(np.abs(np.diff(north, axis=1)))) if north.shape[1] > 1 else 0.0
+            info["drifting"] = bool(step_e <= loose_e / 10 and step_n <= loose_n / 10)
+            return "clear", info
     return "gray", info
 
 
@@ -210,6 +228,8 @@ def install(tap, run):
             run.observe_max("rejected_deviation_over_node_spacing", info.get("deviation_over_spacing", 0.0))
         run.evaluated("check_meshgrid")
         run.count("class:check_meshgrid_" + kind)
+        if info.get("drifting"):
+            run.count("class:check_meshgrid_drifting_non_meshgrid")
         witness = {"easting": np.asarray(coords[0]), "northing": np.asarray(coords[1]), "class": kind, "info": info,
                    "raised": repr(ev.exc)}
         if kind == "exact" and ev.exc is not None:
@@ -541,6 +561,13 @@ def install(tap, run):
             run.count("spelling:table_falsy_name=%r" % (grid.name,))
         if np.asarray(grid.coords[dims[0]].values).dtype.kind in "iu":
             run.count("spelling:table_integer_axes")
+        lazy = [arr for arr in arrays + [grid.coords[c] for c in extras] if hasattr(arr.data, "chunks")]
+        if lazy:
+            run.count("class:table_dask_arrays")
+            if any(len(arr.data.chunks[1]) >= 2 for arr in lazy):
+                run.count("class:table_dask_two_or_more_chunks_along_second_dimension")
+            if len(lazy) < len(arrays) + len(extras):
+                run.count("class:table_dask_and_in_memory_members_mixed")
         run.count("class:table_extra_coords=%d" % len(extras))
         run.count("class:table_n_vars=%d" % len(names))
         order = [str(c) for c in grid.coords if c in dims]
@@ -932,6 +959,8 @@ def _stream_make(run, rng, vu):
         coords, data, names, kwargs = make_arguments(cfg, rng)
         grid = call_make(run, rng, vu, cfg, coords, data, names, kwargs)
         check_intent(run, cfg, grid, kwargs)
+        if rng.random() < 0.1:
+            grid = lazily(run, rng, grid)  # the grid converted afterwards to dask arrays, then to a table
         table = vu.grid_to_table(grid)
         run.evaluated("roundtrip_arrays_grid_table")
         nn, ne = cfg["shape"]
@@ -966,10 +995,39 @@ def _stream_make(run, rng, vu):
                                     "first_variable": cfg["datas"][0], "table_head": table.head(4)})
 
 
+def lazily(run, rng, grid):
+    """
+    The same grid with dask arrays for its variables and extra coordinates: two or more chunks along the SECOND (easting)
+    dimension where the grid has at least two columns - even or uneven chunks, chunked along both dimensions, or only some of the
+    variables chunked while the others stay in memory.
+    """
+    dims = tuple(grid.dims) if hasattr(grid, "name") else tuple(grid[list(grid.data_vars)[0]].dims)
+    n0, n1 = (grid.sizes[dims[0]], grid.sizes[dims[1]])
+    if n1 < 2:
+        return grid.chunk({dims[0]: max(1, n0 // 2)})
+    mode = str(rng.choice(["second_only", "both", "uneven", "some_variables"]))
+    cut = int(rng.integers(1, n1))
+    if mode == "second_only":
+        out = grid.chunk({dims[1]: max(1, n1 // int(rng.integers(2, 5)))})
+    elif mode == "both":
+        out = grid.chunk({dims[0]: max(1, n0 // 2), dims[1]: max(1, n1 // int(rng.integers(2, 4)))})
+    elif mode == "uneven" or hasattr(grid, "name"):
+        mode = "uneven"
+        out = grid.chunk({dims[1]: (cut, n1 - cut)})
+    else:
+        out = grid.copy()
+        first = list(grid.data_vars)[0]
+        out[first] = grid[first].chunk({dims[1]: (cut, n1 - cut)})
+    run.count("class:dask_chunks_" + mode)
+    return out
+
+
 def _stream_table(run, rng, vu, xr):
     for _ in range(PER_CASE):
         cfg = gen_grid_inputs(rng)
         grid, form = build_xarray(cfg, rng, xr)
+        if rng.random() < 0.15:
+            grid = lazily(run, rng, grid)
         table = vu.grid_to_table(grid)
         run.count("class:built_" + form)
         if cfg["extra_names"] and rng.random() < 0.6:
@@ -1055,8 +1113,48 @@ def clear_non_meshgrid(cfg, rng):
     return east, north, mode
 
 
+def drifting_non_meshgrid(rng):
+    """
+    2-D coordinates of projected size (5e5 .. 7.5e6) that are slightly sheared or rotated: every row (column) lies within
+    numpy.allclose's tolerance of its NEIGHBOUR, but the last one is `level` times that tolerance away from the first.
+    Returns (east, north, mode, level).
+    """
+    nn, ne = int(rng.integers(50, 301)), int(rng.integers(40, 121))
+    e0, n0 = float(rng.uniform(5e5, 9e5)), float(rng.uniform(5e5, 7.5e6))
+    level = float(rng.choice([0.5, 2.0, 12.0, 25.0, 40.0]))
+    mode = str(rng.choice(["shear_east", "shear_north", "rotation"]))
+    tol_e, tol_n = 1e-8 + 1e-5 * e0, 1e-8 + 1e-5 * n0
+    drift_e, drift_n = level * tol_e, level * tol_n
+    sp_e = float(rng.uniform(0.3, 0.9)) * max(drift_e, tol_e) if level >= 10 else float(rng.uniform(100, 500))
+    sp_n = float(rng.uniform(0.3, 0.9)) * max(drift_n, tol_n) if level >= 10 else float(rng.uniform(100, 500))
+    sp_e, sp_n = min(sp_e, 0.4 * e0 / ne), min(sp_n, 0.4 * n0 / nn)
+    rows, cols = np.arange(nn, dtype="float64")[:, None], np.arange(ne, dtype="float64")[None, :]
+    east = e0 + sp_e * cols + np.zeros((nn, 1))
+    north = n0 + sp_n * rows + np.zeros((1, ne))
+    if mode in ("shear_east", "rotation"):
+        east = east + drift_e * rows / (nn - 1)
+    if mode in ("shear_north", "rotation"):
+        north = north - drift_n * cols / (ne - 1)
+    return east, north, mode, level
+
+
 def _stream_reject(run, rng, vu, vd):
     from verde.base import BaseGridder
+
+    # gradually drifting non-meshgrids (one per case)
+    east, north, mode, level = drifting_non_meshgrid(rng)
+    kind = mesh_class((east, north))[0]
+    run.count("class:drifting_%s_level_%gx_tolerance_classified_%s" % (mode, level, kind))
+    ii, jj = np.indices(east.shape)
+    values = 4096.0 * ii + jj
+    for target, call in (("check_meshgrid", lambda: vu.check_meshgrid((east, north))),
+                         ("meshgrid_to_1d", lambda: vu.meshgrid_to_1d((east, north, values))),
+                         ("make_xarray_grid", lambda: vu.make_xarray_grid((east, north), values, "field"))):
+        try:
+            call()
+            run.count("accepted_drifting_%s:%s" % (kind, target))
+        except ValueError:
+            run.count("refused:drifting_non_meshgrid_%s" % kind)
 
     class Plane(BaseGridder):
         def predict(self, coordinates):
@@ -1200,6 +1298,9 @@ def _stream_large(run, rng, vu, xr, index):
     else:
         coords = broadcast_mesh(e_vec, n_vec) + tuple(extras)
     grid = vu.make_xarray_grid(coords, tuple(datas), names, dims=dims, extra_coords_names=["height"] if extras else None)
+    if index % 2 == 1:
+        grid = lazily(run, rng, grid)
+        run.count("class:large_grid_as_dask_arrays")
     table = vu.grid_to_table(grid)
     run.evaluated("roundtrip_arrays_grid_table")
     want = {dims[0]: np.repeat(n_vec, ne), dims[1]: np.concatenate([e_vec] * nn)}
